@@ -81,8 +81,33 @@ type c18HasRef struct {
 	Thing c18ThingRef `json:"thing"`
 }
 
+// instantiated generic types: their names carry brackets and commas ("c18GTree[int]")
+type c18GTree[T any] struct {
+	Val  T             `json:"val"`
+	Kids []c18GTree[T] `json:"kids"`
+}
+type c18GPair[K comparable, V any] struct {
+	Key   K                         `json:"key"`
+	Val   V                         `json:"val"`
+	Rest  []c18GPair[K, V]          `json:"rest"`
+	ByKey map[string]c18GPair[K, V] `json:"byKey"`
+}
+type c18GBox[T any] struct {
+	Item  T    `json:"item"`
+	Items []T  `json:"items"`
+	Flag  bool `json:"flag"`
+}
+
+// the outer field is declared BEFORE the embedded struct that promotes a field of the same JSON name
+type c18EmbedCollisionOuterFirst struct {
+	ID int `json:"id"`
+	c18Base
+}
+
 func c18StaticTypes() []reflect.Type {
 	return []reflect.Type{
+		reflect.TypeOf(c18GTree[int]{}), reflect.TypeOf(c18GTree[string]{}), reflect.TypeOf(c18GPair[string, uint8]{}), reflect.TypeOf(c18GBox[c18Leaf]{}), reflect.TypeOf([]c18GTree[float64]{}),
+		reflect.TypeOf(c18GBox[c18GTree[int]]{}), reflect.TypeOf(c18EmbedCollisionOuterFirst{}),
 		reflect.TypeOf(c18Leaf{}), reflect.TypeOf(c18Tree{}), reflect.TypeOf(&c18Tree{}), reflect.TypeOf([]c18Tree{}), reflect.TypeOf([]*c18Tree{}), reflect.TypeOf(map[string]*c18Tree{}),
 		reflect.TypeOf(c18A{}), reflect.TypeOf(c18B{}), reflect.TypeOf(c18EmbedCollision{}), reflect.TypeOf(c18EmbedPlain{}), reflect.TypeOf(c18EmbedPtr{}), reflect.TypeOf(c18Times{}),
 		reflect.TypeOf([]*int{}), reflect.TypeOf(map[string]*string{}), reflect.TypeOf([][]*string{}), reflect.TypeOf(map[string][]*c18Leaf{}), reflect.TypeOf([]map[string]*int8{}),
